@@ -82,7 +82,7 @@ def rule_validator(ctx, prog, eff):
         if t[0] == 'agg' and t[2] == 'Err':
             var = unref(t[3][0])[2]
             if var == "NoMemoryRegion":
-                ok = any(r[0] == 'bool' and r[2] is True and match(C("Vec::is_empty", P(1)), r[1], {}) for r in facts)
+                ok = any(r[0] == 'bool' and r[2] is True and match(ALT(C("Vec::is_empty", P(1)), C("slice::is_empty", ALT(C("Deref::deref", P(1)), P(1)))), r[1], {}) for r in facts)
                 seen[var] = True
                 ctx.ob("R10.2.empty", b.key, ok, b.where(), "Err(NoMemoryRegion) exactly on the regions.is_empty() edge")
             elif var == "UnsortedMemoryRegions":
@@ -107,7 +107,7 @@ def rule_validator(ctx, prog, eff):
                 ctx.ob("R10.2.variant", b.key, False, b.where(), f"unexpected error variant {var}")
         elif t[0] == 'agg' and t[2] == 'Ok':
             v = unref(t[3][0])
-            ne = any(r[0] == 'bool' and r[2] is False and match(C("Vec::is_empty", P(1)), r[1], {}) for r in facts)
+            ne = any(r[0] == 'bool' and r[2] is False and match(ALT(C("Vec::is_empty", P(1)), C("slice::is_empty", ALT(C("Deref::deref", P(1)), P(1)))), r[1], {}) for r in facts)
             # the loop over windows(2) was exhausted: next() returned None
             done = any(r[0] == 'discr' and r[2] == 0 and match(C("Iterator::next", C("IntoIterator::into_iter", C("slice::windows", C("Deref::deref", P(1)), K(2)))), r[1], {}) for r in facts)
             same = v[0] == 'agg' and v[1] == MM and unref(v[3][0])[:2] == ('param', 1)
